@@ -95,7 +95,7 @@ DIR_NAMES = ["in", "in+dir(1)", "in[1]", "c++", "in.d", "a b", "in$", "x{2}", "i
 ARG_STYLES = ["abs", "abs", "trail", "rel", "dot"]
 SUB_NAMES = ["sub", "main", "x", "in", "s.1", "a+b"]
 # base names: several dots, blanks, non-ASCII, glob / regex / format metacharacters, digits only,
-# "_conv" inside the name (a name that *ends* in _conv next to its prefix is the known collision)
+# "_conv" inside the name (a name that *ends* in _conv next to its prefix: systematic block, w06)
 STEM_FORMS = [u"a.b%d", u"sp ace%d", u"ü%d", u"x[%d]", u"p+q(%d)", u"UP%d", u"tr.%d.", u"-dash%d", u"%d",
               u"c_conv%d", u"st*r%d", u"q?%d", u"am&p%d", u"perc%%s%d", u"quo'te%d", u"{%d}", u"xml%d.json"]
 RDF_BY_EXT = {".rdf": "xml", ".ttl": "turtle", ".nt": "nt", ".n3": "n3", ".jsonld": "json-ld"}
@@ -805,11 +805,13 @@ class C17(fw.Check):
         "batch_never_raises_convert", "batch_never_raises_rdf", "batch_outputs_only_in_out_convert",
         "batch_outputs_only_in_out_rdf", "batch_inputs_unchanged_convert", "batch_inputs_unchanged_rdf",
         "batch_isolation_convert", "convertible_file_gets_output", "batch_isolation_rdf",
-        "rdf_name_collision", "convert_dir_mapping", "convert_dir_output_under_out", "convert_dir_frame",
+        "legacy_rdf_name_collision", "fixed_rdf_name_witness", "convert_dir_mapping",
+        "convert_dir_output_under_out", "convert_dir_frame",
         "batch_outputs_only_in_out_convert_dir", "batch_inputs_unchanged_convert_dir",
         "legacy_unmatched_overwrites_input", "legacy_convert_dir_clobbers_inputs",
         "fixed_convert_dir_witness", "legacy_literal_replaces_every_occurrence",
-        "batch_isolation_rdf_base_names", "exportable_file_gets_rdf", "implicit_output_location",
+        "batch_isolation_rdf_base_names", "exportable_file_gets_rdf", "converted_file_gets_rdf",
+        "implicit_output_location",
         "batch_inputs_unchanged_convert_dir_implicit"]]
     trusted_base = [
         "Lean 4.33.0 kernel; axioms propext, Classical.choice, Quot.sound only (audited per theorem)",
@@ -821,8 +823,7 @@ class C17(fw.Check):
     assumptions = [
         "what converting one file does depends on that file only (path and bytes); includes/terminologies "
         "that need the network are kept out of the inputs",
-        "base names (without extension) are unique within a run, as the property says; for odmltordf also "
-        "no base name equals another one followed by '_conv' (theorem rdf_name_collision)",
+        "base names (without extension) are unique within a run, as the property says",
         "the output location is outside the input tree",
     ]
     rule = ("random directory trees from the ten file kinds (several extensions each), 1-6 files, nested "
@@ -857,6 +858,11 @@ class C17(fw.Check):
             if kind in DOC_KINDS and rng.random() < 0.5:
                 spec["doc"] = gen_doc(rng)      # content of the valid file: see "abstract documents"
             out.append(spec)
+        if len(out) >= 2 and rng.random() < 0.12:
+            # a name that is another name followed by "_conv" (the name odmlconvert / odmltordf give to
+            # the converted file): still unique base names, every file must get its own outputs
+            a, b = rng.sample(range(len(out)), 2)
+            out[b]["stem"] = out[a]["stem"] + "_conv"
         rng.shuffle(out)
         return out
 
@@ -1201,16 +1207,19 @@ class C17(fw.Check):
                 outs = dict((subst(k, spec), subst(v, spec)) for k, v in obs["alone"][name]["outs"].items())
                 stem = spec["stem"]
                 key = "IN:" + name                      # tables are keyed by the bytes read
-                if "OUT/RDF/%s.rdf" % stem in outs:
+                # the RDF file carries the name of the input file whether or not the file had to be
+                # converted first; a converted file also leaves <stem>_conv.xml
+                own_rdf = outs.get("OUT/RDF/%s.rdf" % stem)
+                c = outs.get("OUT/%s_conv.xml" % stem)
+                if c is None and own_rdf is not None:
                     loads[key] = True
-                    render[key] = outs["OUT/RDF/%s.rdf" % stem]
+                    render[key] = own_rdf
                 else:
                     loads[key] = False
                     render[key] = "err"
-                c = outs.get("OUT/%s_conv.xml" % stem)
                 convert[key] = c if c is not None else "err"
                 if c is not None:
-                    render[c] = outs.get("OUT/RDF/%s_conv.rdf" % stem, "err")
+                    render[c] = own_rdf if own_rdf is not None else "err"
             req = dict(P, op="cli", tool=case["tool"], out_dir=out_dir, files=obs["order"],
                        fs=[[p, "IN:" + os.path.basename(p)] for p in obs["order"]],
                        loads=loads, convert=convert, render=render)
@@ -1388,7 +1397,10 @@ class C17(fw.Check):
                 if kind in OLD_KINDS:
                     want.append("OUT/STEMX_conv.xml")
                     if case["tool"] == "rdf":
-                        want.append("OUT/RDF/STEMX_conv.rdf")
+                        # the property does not say how the RDF file of a converted file is named:
+                        # the one RDF file that the file gets alone, whatever its name
+                        rdf_keys = sorted(k for k in outs if k.startswith("OUT/RDF/") and k.endswith(".rdf"))
+                        want.append(rdf_keys[0] if len(rdf_keys) == 1 else "OUT/RDF/STEMX.rdf")
                 elif kind in NEW_KINDS and case["tool"] == "rdf":
                     want.append("OUT/RDF/STEMX.rdf")
                 for key in want:
@@ -1467,24 +1479,8 @@ class C17(fw.Check):
         return out
 
     def finding_key(self, case, obs, failure):
-        if case.get("stream") == "cli" and case.get("tool") == "rdf" and \
-                failure.startswith("distinct input files are given the same output path") and \
-                "_conv.rdf" in failure:
-            stems = set(s["stem"] for s in case["files"])
-            if any(s + "_conv" in stems for s in stems):
-                return "C17-odmltordf-conv-name-collision"
-        # a JSON / YAML file holding non-ASCII text as UTF-8, read in a process whose locale encoding
-        # is not UTF-8: only this file kind, only in that configuration, only "no output"
-        if case.get("stream") == "locale" and "utf" not in str(obs.get("encoding", "")).lower().replace("-", ""):
-            import re
-            hit = re.match(r"sub-case (\d+) \(cli \w+\): valid (json10|yaml10|json11|yaml11) file gets no proper "
-                           r"output .* \(found None\) \[file (.*)\]$", failure)
-            if hit and int(hit.group(1)) < len(case["cases"]):
-                for spec in case["cases"][int(hit.group(1))]["files"]:
-                    if file_name(spec) == hit.group(3) and spec["kind"] == hit.group(2) and \
-                            (spec.get("doc") or {}).get("raw_unicode") and \
-                            any(ord(ch) > 127 for ch in content(spec["kind"], spec["tag"], spec["doc"])):
-                        return "C17-json-yaml-read-locale-encoding"
+        # no open finding: C17-odmltordf-conv-name-collision (b7276cb) and
+        # C17-json-yaml-read-locale-encoding (7b9559d) are fixed, a regression is a violation again
         return None
 
     def tag(self, case, obs):
